@@ -78,7 +78,7 @@ SAN = " || thorough tier: the same workloads under ThreadSanitizer / AddressSani
 
 PLAN = {
     "C01": dict(
-        stages=[ls("C01"), ls_async_quick("C01"), ho("C01"), ga()],
+        stages=[ls("C01"), ls_async_quick("C01"), ho("C01", q=60), ga()],
         rule=LS + " || " + HO + " || " + GA + " (after each race four more admissions under tight capacity: what is resident must still fit)",
         clauses=["policy observer log replayed step by step (emitted under the policy lock): used == sum of per-key charges at every add/update/remove/clear; "
                  "oversize never admitted; every admission of a new key leaves used <= max_cost; victims' costs == their charges; update delta == new - old; "
@@ -88,7 +88,7 @@ PLAN = {
         assumptions=["equalities are decided on histories whose true sum of charges fits in i64 (beyond that an i64 total has no defined answer); costs near i64::MAX are used for survival and oversize clauses"],
     ),
     "C02": dict(
-        stages=[ho("C02", q=60), ls("C02"), ls("C02", q=100, t=1500, shards_q=2, shards_t=8, profile="C18"), ga(), tsan("hostile"), asan("hostile", n=30), miri("store")],
+        stages=[ho("C02", q=100), ls("C02"), ls("C02", q=100, t=1500, shards_q=2, shards_t=8, profile="C18"), ga(), tsan("hostile"), asan("hostile", n=30), miri("store")],
         rule=HO + " || " + LS + " || " + GA + SAN,
         clauses=["R1 returned value carries the looked-up key", "R2 written by an insert that returned true or an in-place write, not from the future",
                  "R3a no value written before a remove that was applied (later wait() Ok, no clear overlapping)", "R3a' removal of an observably resident value is immediate",
@@ -122,7 +122,7 @@ PLAN = {
         assumptions=["ticks are delivered (never skipped) at phase + n*interval of the virtual clock"],
     ),
     "C06": dict(
-        stages=[ho("C06", q=60), ho("C06", q=24, t=240, shards_q=2, shards_t=8, flavors="tokio-mt,tokio-ct,seeded"), pairs(), ls("C06"), ga(), tsan("hostile")],
+        stages=[ho("C06", q=100), ho("C06", q=40, t=240, shards_q=2, shards_t=8, flavors="tokio-mt,tokio-ct,seeded"), pairs(), ls("C06"), ga(), tsan("hostile")],
         rule=GA + " || " + HO + SAN + "; histories in which a call returned Err are excluded (the statement's exemption) and counted",
         clauses=["keys(store) == keys(policy) at the quiescent end", "len() == number of resident entries", "same invariant after every lockstep step",
                  "async slice (tokio multi/current thread, seeded executor) with tiny insert buffers and no client-side wait(): a full buffer without any reported error"],
@@ -144,7 +144,7 @@ PLAN = {
         assumptions=["policy worker drained (kept == applied) before each add, so estimates are stable while the oracle reads them"],
     ),
     "C08": dict(
-        stages=[ho("C08", q=60), pairs(), ls("C08"), ls_async_quick("C08"), ga(), dict(engine="close", shards=dict(quick=2, thorough=8), args=["--quick-n", "320", "--thorough-n", "4000"]), tsan("hostile")],
+        stages=[ho("C08", q=100), pairs(), ls("C08"), ls_async_quick("C08"), ga(), dict(engine="close", shards=dict(quick=2, thorough=8), args=["--quick-n", "320", "--thorough-n", "4000"]), tsan("hostile")],
         rule=HO + " || " + LS + " || " + GA + SAN,
         clauses=["every accepted value: exactly one of {resident, on_exit, on_evict, on_reject, overwritten in place}", "none of them only if dropped inside a clear()/close() call",
                  "never two", "no look-up returns a value after its callback", "no value leaked after the cache and its workers are gone", "lockstep: callback kind matches the cause",
@@ -153,7 +153,7 @@ PLAN = {
         assumptions=["collision-free keys; no ValueRefMut::write (drops the replaced value in the caller by design)"],
     ),
     "C09": dict(
-        stages=[ls("C09", q=400), ls_async_quick("C09"), ho("C09", q=40), hammer(), ga()],
+        stages=[ls("C09", q=400), ls_async_quick("C09"), ho("C09", q=60), hammer(), ga()],
         rule=LS + "; validators: never / only-greater / new-id-even / value-dependent; Coster on",
         clauses=["insert_if_present on absent => false, no callback, cache unchanged", "on resident => update of value and cost", "vetoed insert / insert_with_ttl / insert_if_present: value and remaining TTL unchanged, still reclaimed at the old deadline",
                  "expired-but-unswept key: both outcomes accepted (the statement does not decide it)",
@@ -162,7 +162,7 @@ PLAN = {
         assumptions=[],
     ),
     "C10": dict(
-        stages=[ho("C10", q=60), dict(engine="waitrace", shards=dict(quick=4, thorough=16), args=["--quick-n", "480", "--thorough-n", "6000"]), tsan("hostile"), tsan("waitrace", n=60, shards=2, extra=["--flavors", "sync"]), miri("lifecycle")],
+        stages=[ho("C10", q=100), dict(engine="waitrace", shards=dict(quick=4, thorough=16), args=["--quick-n", "480", "--thorough-n", "6000"]), tsan("hostile"), tsan("waitrace", n=60, shards=2, extra=["--flavors", "sync"]), miri("lifecycle")],
         rule=HO + " (barrier mode: disjoint keys per thread, ample capacity, each batch followed by wait() and an immediate check of the thread's own keys) || "
              "termination: waiters vs close / clear / both (in half of the closes the processor is parked right after its final drain, still owning the buffer's receiving end, while the waiters go on), readers and writers on one shard; every flavour; verdict from state (worker exit counters, thread states), never from a timeout",
         clauses=["after wait() Ok: a key written exactly once since the previous barrier holds that value and is charged / is gone and uncharged", "keys written several times: store and policy agree",
@@ -172,7 +172,7 @@ PLAN = {
         assumptions=["several writes to one key between two barriers are applied out of program order by design (updates at once, queued removes and first inserts later)"],
     ),
     "C11": dict(
-        stages=[ls("C11", q=400), ls_async_quick("C11"), ho("C11", q=60), ga(), tsan("hostile")],
+        stages=[ls("C11", q=400), ls_async_quick("C11"), ho("C11", q=100), ga(), tsan("hostile")],
         rule=LS + " || " + HO + " || " + GA + SAN,
         clauses=["after clear(): every key absent, len 0, used 0, counters zero, histogram empty", "afterwards exactly the fresh-cache model, incl. keys re-used with another TTL or none across their old expiry seconds",
                  "concurrent: nothing written before a completed clear() is returned afterwards; barrier clauses for inserts begun after clear() returned",
@@ -211,7 +211,7 @@ PLAN = {
         assumptions=["'a small constant factor of p' is taken as 3 (plus 7 standard deviations of the binomial sampling error)"],
     ),
     "C15": dict(
-        stages=[ls("C15", q=300), ho("C15", q=40)],
+        stages=[ls("C15", q=300), ho("C15", q=60)],
         rule=LS + "; buffer_items 0/1/2/3/64, num_counters 64/100 (aging resets modelled exactly from the Applied events) and 100000 || " + HO + " (readers mode)",
         clauses=["flushed batches are exactly the look-up stream cut every buffer_items keys (hits and misses)", "estimate(k) >= min(look-ups of k applied since the last aging reset / clear, 16)",
                  "gets_kept + gets_dropped == keys in flushed batches; gets_kept == keys in kept batches", "kept batches == applied batches at quiescence", "a batch is dropped only with a full policy queue (never on the async policy)"],
@@ -226,7 +226,7 @@ PLAN = {
         assumptions=["value type sizes: one value type (Tracked) at cache level; the overhead constant is the hook-reported item_size, required > 0 and identical for every insert"],
     ),
     "C17": dict(
-        stages=[ls("C17", q=400), ls_async_quick("C17"), ho("C17", q=40)],
+        stages=[ls("C17", q=400), ls_async_quick("C17"), ho("C17", q=60)],
         rule=LS + " (tight capacity: evictions and rejections occur) || " + HO,
         clauses=["hits + misses == look-ups made since the last clear (interval bounds when calls overlap a clear)", "keys_added - keys_evicted == charged entries", "cost_added - cost_evicted == used (wrapping)",
                  "sets_dropped == inserts that returned false", "sets_rejected == popularity rejections seen by the policy observer", "all zero after clear (a look-up made the instant clear() returned already counts in the new period)", "ratio() == hits/(hits+misses), also over windows with only hits, only misses, nothing (ratio scenarios on every flavour)",
